@@ -175,3 +175,81 @@ def genNested (cfg : NestCfg) : G Stmt := do
   pure s
 
 end Drv
+
+namespace Drv
+open IGVerif
+
+def genFlatParts (n : Nat) (exprDepth : Nat) (avoid : List Sym := []) : GS (List Part) := do
+  let syms ← distinctSyms n (Sym.simples.filter (fun s => !avoid.contains s))
+  let mut parts : List Part := []
+  for sym in syms do
+    let d ← liftG (range 0 exprDepth)
+    let e ← genExpr { shared := false, chains := true } d
+    if (← liftG (chance 3 10)) then parts := (← genFiller) :: parts
+    parts := .ann { sym := sym } true e :: parts
+  pure parts.reverse
+
+/-- inner statement of a supported nested statement -/
+partial def genSupNested (depth : Nat) : GS Stmt := do
+  let k ← liftG (range 1 3)
+  let mut parts ← genFlatParts k 2
+  if depth > 0 then
+    let m ← liftG (range 0 2)
+    let syms ← distinctSyms m Sym.nestables
+    for sym in syms do
+      let anno ← liftG (pick [none, none, some "ctx=y"])
+      let inner ← genSupNested (depth - 1)
+      parts := parts ++ [.nested { sym := sym, anno := anno.map String.toList } inner]
+  let sh ← liftG (shuffle parts)
+  pure (.mk sh)
+
+def genSupOperand : GS Stmt := do
+  let k ← liftG (range 1 3)
+  let parts ← genFlatParts k 1
+  if (← liftG (chance 1 3)) then
+    let sym ← liftG (pick Sym.nestables)
+    let inner ← genFlatParts (← liftG (range 1 2)) 1
+    pure (.mk (parts ++ [.nested { sym := sym } (.mk inner)]))
+  else pure (.mk parts)
+
+partial def genSupNTree (sym : Sym) (n : Nat) : GS NTree := do
+  if n ≤ 1 then
+    let anno ← liftG (pick [none, none, none, some "ctx=z"])
+    pure (.one { sym := sym, anno := anno.map String.toList } (← genSupOperand))
+  else
+    let k ← liftG (range 1 (n - 1))
+    pure (.op (← liftG (pick ops3)) (← genSupNTree sym k) (← genSupNTree sym (n - k)))
+
+/-- supported statements with nesting (C02) -/
+def genSupC02 (depth : Nat) : G Stmt := do
+  let g : GS Stmt := do
+    let k ← liftG (range 1 4)
+    let mut parts ← genFlatParts k 2
+    let variant ← liftG (below 10)
+    if variant < 2 then
+      -- two operator-free nested statements of one symbol, optionally with a written operator
+      let sym ← liftG (pick Sym.nestables)
+      let a ← genFlatParts (← liftG (range 1 2)) 0
+      let b ← genFlatParts (← liftG (range 1 2)) 0
+      let opw ← liftG (pick [none, some "[AND]", some "[OR]", some "[XOR]"])
+      let mid : List Part := match opw with | some w => [.filler w.toList] | none => []
+      pure (.mk (parts ++ [.nested { sym := sym } (.mk a)] ++ mid ++ [.nested { sym := sym } (.mk b)]))
+    else
+      let m ← liftG (range 1 2)
+      let syms ← distinctSyms m Sym.nestables
+      for sym in syms do
+        if (← liftG (chance 1 2)) then
+          let anno ← liftG (pick [none, none, some "ctx=y"])
+          -- distinct suffixes, so that no property matches a component (that is C16's subject)
+          let sfx ← liftG (pick [none, none, none, some (toString (parts.length + 1))])
+          let inner ← genSupNested (depth - 1)
+          parts := parts ++ [.nested { sym := sym, anno := anno.map String.toList, sfx := sfx.map String.toList } inner]
+        else
+          let n ← liftG (range 2 4)
+          parts := parts ++ [.ncomb { sym := sym } (← genSupNTree sym n)]
+      let sh ← liftG (shuffle parts)
+      pure (.mk sh)
+  let (s, _) ← g.run 0
+  pure s
+
+end Drv
